@@ -1,6 +1,6 @@
 """Orchestration helpers: build the harness from /repo's working tree, run TLC, run the
 harness, validate traces, classify, write evidence.  No third-party imports."""
-import json, os, re, shutil, subprocess, sys, time, hashlib
+import json, os, re, shutil, subprocess, sys, time, hashlib, uuid
 
 VERIF = os.path.dirname(os.path.dirname(os.path.abspath(__file__)))
 SPEC = os.path.join(VERIF, "spec")
@@ -92,13 +92,15 @@ def _unescape(s):
 
 def tlc(module, cfg, work, workers=8, env=None, timeout=900, extra=(), heap=None, simulate=None):
     """Run TLC on spec/<module>.tla with config file `cfg`. Returns a dict."""
-    meta = work.path("tlc-%s-%d" % (module, int(time.time() * 1000) % 100000000))
+    meta = work.path("tlc-%s-%s" % (module, uuid.uuid4().hex[:10]))
     e = dict(os.environ)
     if env:
         e.update(env)
     # -Xss on the command line (not only JAVA_TOOL_OPTIONS): the launcher sizes the main thread, which
     # evaluates initial states and their invariants, from the command line
-    cmd = ["java", "-XX:+UseParallelGC", "-Xss1g"]
+    jtmp = work.path("jtmp")
+    os.makedirs(jtmp, exist_ok=True)
+    cmd = ["java", "-XX:+UseParallelGC", "-Xss1g", "-Djava.io.tmpdir=" + jtmp]
     if heap:
         cmd.append("-Xmx" + heap)
     cmd += ["-cp", TLA_CP, "tlc2.TLC", "-workers", str(workers), "-metadir", meta, "-cleanup", "-noGenerateSpecTE", "-config", cfg]
@@ -178,9 +180,10 @@ def run_harness(driver, scenarios, work, name, timeout=900):
     return {"trace": tp, "meta": meta, "wall": time.time() - t0, "scen": sp}
 
 
-def tv(trace, module, cfgname, work, timeout=900, subst=None):
-    """TLC trace validation; returns the SUMMARY record printed by the trace spec"""
-    cfg = write_cfg(work, "tv-" + module, cfgname, subst=subst) if subst else os.path.join(SPEC, "mc", cfgname + ".cfg")
+TV_PAR = int(os.environ.get("VERIF_TV_PAR", "6"))
+
+
+def _tv1(trace, module, cfg, work, timeout):
     env = {"TRACE": trace, "JAVA_TOOL_OPTIONS": "-Xss1g -Dtlc2.tool.queue.IStateQueue=StateDeque"}
     r = tlc(module, cfg, work, workers=1, env=env, timeout=timeout, heap="6g")
     if (r["error"] or "SUMMARY" not in r["prints"]) and r["error"] != "timeout":
@@ -194,6 +197,76 @@ def tv(trace, module, cfgname, work, timeout=900, subst=None):
     s["wall"] = r["wall"]
     s["tlc_states"] = r["distinct"]
     return s
+
+
+def tv(trace, module, cfgname, work, timeout=900, subst=None):
+    """TLC trace validation; returns the SUMMARY record printed by the trace spec.  A long recording that
+    consists of independent executions (each opened by a reset line, which re-initialises every variable
+    of the trace spec) is cut at reset lines and the pieces are validated in parallel; the summaries
+    are added up, line numbers shifted back to the whole recording."""
+    cfg = write_cfg(work, "tv-" + module, cfgname, subst=subst) if subst else os.path.join(SPEC, "mc", cfgname + ".cfg")
+    tag = '"k":"reset"'
+    nlines = 0
+    first = None
+    with open(trace) as f:
+        for ln in f:
+            if first is None:
+                first = ln
+            nlines += 1
+    pieces = min(TV_PAR, nlines // 12000) if first and tag in first else 1
+    if pieces <= 1:
+        return _tv1(trace, module, cfg, work, timeout)
+    target = nlines // pieces + 1
+    parts = []     # (path, offset)
+    out = None
+    n_in = 0
+    with open(trace) as f:
+        for i, ln in enumerate(f):
+            if out is None or (n_in >= target and tag in ln):
+                if out:
+                    out.close()
+                path = "%s.part%d" % (trace, len(parts))
+                parts.append((path, i))
+                out = open(path, "w")
+                n_in = 0
+            out.write(ln)
+            n_in += 1
+    if out:
+        out.close()
+    from concurrent.futures import ThreadPoolExecutor
+    try:
+        with ThreadPoolExecutor(max_workers=len(parts)) as ex:
+            futs = [ex.submit(_tv1, p, module, cfg, work, timeout) for p, _ in parts]
+            sums = [f.result() for f in futs]
+    finally:
+        for p, _ in parts:
+            try:
+                os.remove(p)
+            except OSError:
+                pass
+    tot = {}
+    for (p, off), s in zip(parts, sums):
+        for k, v in s.items():
+            if isinstance(v, bool):
+                tot[k] = tot.get(k, True) and v
+            elif isinstance(v, (int, float)):
+                tot[k] = max(tot.get(k, 0), v) if k == "wall" else tot.get(k, 0) + v
+            elif isinstance(v, list):
+                acc = tot.setdefault(k, [])
+                for x in v:
+                    if isinstance(x, dict):
+                        x = dict(x)
+                        if "line" in x:
+                            x["line"] += off
+                        acc.append(x)
+                    elif x not in acc:
+                        acc.append(x)
+            else:
+                tot.setdefault(k, v)
+    if tot.get("lines") != nlines:
+        raise ToolError("trace validation consumed %s of %d lines" % (tot.get("lines"), nlines))
+    tot["pieces"] = len(parts)
+    return tot
 
 
 def read_trace_lines(path):
